@@ -50,12 +50,15 @@ def real_bases(rng, n):
     return pool[:n]
 
 
-def beh_to_replays(hist, cfg, rng, bases, next_id, raw_share=0.1):
+SCALE_W3 = (2 ** 24 - 1) // 3     # model offset 3 (= W) -> real offset 2^24-1, the widest legal difference
+
+
+def beh_to_replays(hist, cfg, rng, bases, next_id, raw_share=0.1, scaled=False):
     """Turn one behaviour TLC dumped (a list of predicted call records) into
     replayable behaviours with the prediction attached."""
     out = []
     timed = any(r["op"] == "tick" for r in hist)
-    for base in bases:
+    for bi, base in enumerate(bases):
         ops = []
         for r in hist:
             if r["op"] == "push":
@@ -74,7 +77,11 @@ def beh_to_replays(hist, cfg, rng, bases, next_id, raw_share=0.1):
         b = {"trace": next_id[0], "max": cfg["Max"], "tinf": tmo == INF,
              "timeout_us": 0 if tmo == INF else int((tmo + 0.5) * TICK_US),
              "base": {"hi": base >> 16, "lo": base & 0xFFFF}, "tick_us": TICK_US,
+             "inf_kind": rng.randrange(5),
              "ops": ops, "pred": [dict(r, k="call") for r in hist], "timed": timed, "src": "tlc"}
+        if scaled and bi == len(bases) - 1:
+            b["scale"] = SCALE_W3
+            b["src"] = "tlc-scaled"
         next_id[0] += 1
         out.append(b)
     return out
@@ -93,6 +100,9 @@ def plan(prop, tier):
         p["only_ticked"] = True
     else:
         p["dump"] = [dict(Max=m, Timeout=INF, MaxTicks=0, MaxOps=4 if q else 5, Width=3) for m in (0, 1, 2)]
+        # the widest legal window (Width = W+1): replayed with offsets scaled to the real 2^24 window
+        p["dump"] += [dict(Max=m, Timeout=INF, MaxTicks=0, MaxOps=4, Width=4)
+                      for m in ((1, 3) if prop == "C02" or not q else (2,))]
         p["deep"] = [dict(Max=1, Timeout=INF, MaxTicks=0, MaxOps=5 if q else 6, Width=3 if q else 4)]
         if not q:
             p["deep"] += [dict(Max=m, Timeout=INF, MaxTicks=0, MaxOps=6, Width=4) for m in (0, 2, 3)]
@@ -130,6 +140,11 @@ def run(ctx):
         deep_states += r.distinct
         ctx.log("MC (deep) %s: %d generated / %d distinct states in %.0fs" % (c, r.generated, r.distinct, r.wall))
 
+    lemma = False
+    if prop in ("C02", "C03"):
+        lemma = core.apalache_lemma(ctx)
+        ctx.log("Apalache proved SeqWindowLemma for M=2^32, W=2^24-1")
+
     # ---- A: replay every dumped behaviour through the real code ----------------
     behp = ctx.path("replay", "behaviours.ndjson")
     next_id = [1]
@@ -140,7 +155,7 @@ def run(ctx):
             for hist in res.behaviours():
                 if pl["only_ticked"] and not any(r["op"] == "tick" for r in hist):
                     continue
-                for b in beh_to_replays(hist, c, rng, real_bases(rng, pl["bases"]), next_id):
+                for b in beh_to_replays(hist, c, rng, real_bases(rng, pl["bases"]), next_id, scaled=c["Width"] == 4):
                     fh.write(json.dumps(b) + "\n")
                     nrep += 1
     trp = ctx.path("replay", "trace.ndjson")
@@ -213,6 +228,7 @@ def run(ctx):
         "call_records_judged_by_tlc": nrec,
         "model_configs": pl["dump"] + pl["deep"],
         "features_distinct_histories": feats,
+        "seq_window_lemma_proved_by_apalache": lemma,
     }
     assumptions = [
         "sequence numbers of a history stay inside one 2^24 window (the property's quantifier); offsets are mapped to uint32 by the harness",
